@@ -572,7 +572,7 @@ func (P *Prog) runReal(pkgPath, pkgName, fname string, sig *types.Signature, arg
 	ovFile := filepath.Join(tmp, "overlay.json")
 	os.WriteFile(ovFile, ovData, 0o644)
 	outFile := filepath.Join(tmp, "out.json")
-	cmd := exec.Command("bash", "-c", fmt.Sprintf("ulimit -v 8000000; cd %s && go test -overlay %s -vet=off -count=1 -timeout 60s -run '^TestGovcReplay$' .", dir, ovFile))
+	cmd := exec.Command("bash", "-c", fmt.Sprintf("ulimit -v 8000000; cd %s && go test -tags %s -overlay %s -vet=off -count=1 -timeout 60s -run '^TestGovcReplay$' .", dir, P.tags, ovFile))
 	cmd.Env = append(os.Environ(), "GOFLAGS=-mod=mod", "GOPROXY=off", "GOSUMDB=off", "GOTOOLCHAIN=local", "GOVC_REPLAY_OUT="+outFile)
 	logb, runErr := cmd.CombinedOutput()
 	data, err := os.ReadFile(outFile)
